@@ -53,20 +53,25 @@ def slack_chain_cases(ctx):
         files = [(None, b"OK      BIN", 0x20, [base], b"k" * 100),
                  (None, b"SLACK   BIN", 0x20, [s1], b""),
                  (None, b"LINK    BIN", 0x20, [base + 1, s2], b"l" * 10),
-                 (None, b"SLACKDIR   ", 0x10, [s3], b"")]
+                 (None, b"SLACKDIR   ", 0x10, [s3], b""),
+                 # the LAST cluster of the volume linked to the entry right behind it (physically consecutive: C08-m6 read such runs in one piece)
+                 (None, b"EDGE    BIN", 0x20, [maxc, maxc + 1], b"e" * 10)]
         img, info = fatspec.build(ft, clusters=clusters, files=files, **kw)
         tot = info["tot"] * (kw.get("bps", 512))
         img = bytearray(img[:tot])
         # sizes the damaged entries claim
         v = fatspec.Volume(bytes(img), force_ft=32 if ft == 32 else None)
         ro = (v.rsvd + v.nfats * v.fatsz) * v.bps if ft != 32 else ((2 - 2) * v.spc + v.fds) * v.bps
-        for k in range(4):
+        for k in range(5):
             e = ro + 32 * k
+            if img[e:e + 11] == b"EDGE    BIN":
+                img[e + 28:e + 32] = (2 * v.bpc).to_bytes(4, "little")
             if img[e:e + 11] == b"SLACK   BIN":
                 img[e + 28:e + 32] = (300).to_bytes(4, "little")
             if img[e:e + 11] == b"LINK    BIN":
                 img[e + 28:e + 32] = (v.bpc + 40).to_bytes(4, "little")
         ops = [["listdir", "/"], ["getsize", "/SLACK.BIN"], ["readbytes", "/SLACK.BIN"], ["readbytes", "/LINK.BIN"], ["listdir", "/SLACKDIR"],
+               ["readbytes", "/EDGE.BIN"], ["open", "e0", "/EDGE.BIN", "r"], ["read", "e0", v.bpc + 5], ["seek", "e0", v.bpc - 1], ["read", "e0", 2], ["hclose", "e0"],
                ["open", "h0", "/SLACK.BIN", "r+"], ["write", "h0", "5a" * 64], ["hclose", "h0"],
                ["open", "h1", "/LINK.BIN", "a"], ["write", "h1", "5b" * (2 * v.bpc)], ["hclose", "h1"],
                ["open", "h2", "/LINK.BIN", "r+"], ["seek", "h2", v.bpc + 4], ["write", "h2", "5c" * 16], ["hclose", "h2"],
